@@ -97,7 +97,22 @@ type Concrete struct {
 
 func (c Concrete) key() string { b, _ := json.Marshal(c); return string(b) }
 
-var texts = map[string]string{"Q1": textQ1, "Q2": textQ2, "QX": textQX}
+var texts = map[string]string{"Q1": textQ1, "Q2": textQ2, "QX": textQX,
+	// document twins (TwinTexts in spec/HttpState.tla): they differ only in bytes that look insignificant and are not
+	"TA1": `{ echo(s: "a b") }`,            // blanks inside a string argument
+	"TA2": `{ echo(s: "a  b") }`,           //
+	"TF1": `{ echo(s: "a,b") }`,            // a comma inside a string
+	"TB1": "{ echo(s: \"\"\"x\ny\"\"\") }", // a block string: line break ...
+	"TB2": `{ echo(s: """x y""") }`,        // ... or blank
+	"TC1": "query Q {\n  opName # c\n}",    // the comment ends at the line break: valid
+	"TC2": "query Q { opName # c }",        // the comment swallows the closing brace: does not parse
+	"TD1": "{ opName # c\n vars }",         // two fields
+	"TD2": "{ opName # c vars\n }",         // the comment swallows the second field
+	"TD3": "{ opName # c\r vars }",         // \r ends a comment too: two fields
+	"TD4": "{ opName # c  vars }",          // a blank where TD3 has \r: the comment swallows the rest, does not parse
+	"TG1": "{ opName  vars }",              // control: really equivalent ...
+	"TG2": "{\n opName\n vars\n}",          // ... layouts
+}
 
 func hashOf(q string) string { b := sha256.Sum256([]byte(q)); return hex.EncodeToString(b[:]) }
 
